@@ -98,13 +98,14 @@ def run(prop, tier, seed):
             rep.violation(f"witness of known finding {k['id']} behaves in a third way: {json.dumps(u)} / {json.dumps(o)}", {"script": w}, tag="w")
 
     # ------------------------------------------------------------ 3. conformance
-    ntr, ln = (60, 30) if tier == "quick" else (600, 45)
+    # C06 thorough probes a crash image at every byte of every append (and 12 bit flips each): fewer histories
+    ntr, ln = (60, 30) if tier == "quick" else ((100, 40) if prop == "C06" else (600, 45))
     tp = os.path.join(wd, "trace.ndjson")
     args = ["wal", "--seed", seed + (0 if prop == "C05" else 500), "--traces", ntr, "--len", ln, "--out", tp,
             "--dir", os.path.join(wd, "db"), "--profile", prop]
     if tier == "thorough" and prop == "C06":
         args += ["--every-byte", "--flips", 12]
-    rc, out, _ = V.gv(args, timeout=3000)
+    rc, out, _ = V.gv(args, timeout=6000)
     info = json.loads(out.strip().splitlines()[-1])
     ev = V.read_ndjson(tp)
     bym = split_modes(ev)
